@@ -522,3 +522,43 @@ Proof.
       (forallb_In _ (decor_present x86_vtables) x86_db_decorations x86_db_decorations_present _ Hd) LK FM M ST).
 Qed.
 Print Assumptions C13_db_row_validates_standard_lock.
+
+(* ================================================================== round 7 *)
+(* ---- standard operands under {k}{z} (zeroing-masking): for every row of an instruction whose decoration entry names kEvex, K and Z, every standard operand list with a
+   register destination and every mask register k1..k7, the instruction word with the {z} option and the mask validates *)
+Theorem C13_db_row_validates_standard_masked_zeroing : forall row, In row x86_db_rows ->
+  forall nif naf, In (dr_inst row, nif, naf) x86_db_decorations -> test nif IF_Evex = true -> test naf AF_K = true -> test naf AF_Z = true ->
+  forall zq x64 ops kid, 1 <= kid <= 7 -> first_is_mem ops = false -> test (dr_mode row) (mode_bit x64) = true ->
+  std_instances x64 (explicit_ops (dr_ops row)) ops = true ->
+  validate x86_vtables zq x64 false {| vi_id := dr_inst row; vi_options := OPT_ZMask; vi_extra_type := RT_Mask; vi_extra_id := kid |} ops = E_Ok.
+Proof.
+  exact (fun row Hin nif naf Hd EV K Z zq x64 ops kid KID FM M ST =>
+    db_row_validates_standard_kz x86_vtables zq x64 row ops kid nif naf x86_sigs_wf
+      (forallb_In _ (row_present x86_vtables) x86_db_rows x86_db_rows_present row Hin) x86_standard_registers_ok x86_mem_base_types_ok
+      (forallb_In _ (decor_present x86_vtables) x86_db_decorations x86_db_decorations_present _ Hd) EV K Z KID FM M ST).
+Qed.
+Print Assumptions C13_db_row_validates_standard_masked_zeroing.
+
+(* non-vacuity: rows whose instruction has a decoration entry naming kEvex, K and Z exist *)
+Example C13_db_row_validates_standard_masked_zeroing_nonvacuous :
+  existsb (fun row => existsb (fun dc => (fst (fst dc) =? dr_inst row) && test (snd (fst dc)) IF_Evex && test (snd dc) AF_K && test (snd dc) AF_Z) x86_db_decorations) x86_db_rows = true.
+Proof. vm_compute. reflexivity. Qed.
+
+(* ---- standard operands with the {evex} option: for every row of an instruction whose decoration entry names kEvex, every standard operand list validates with the option *)
+Theorem C13_db_row_validates_standard_evex : forall row, In row x86_db_rows ->
+  forall nif naf, In (dr_inst row, nif, naf) x86_db_decorations -> test nif IF_Evex = true ->
+  forall zq x64 ops, test (dr_mode row) (mode_bit x64) = true ->
+  std_instances x64 (explicit_ops (dr_ops row)) ops = true ->
+  validate x86_vtables zq x64 false {| vi_id := dr_inst row; vi_options := OPT_Evex; vi_extra_type := 0; vi_extra_id := 0 |} ops = E_Ok.
+Proof.
+  exact (fun row Hin nif naf Hd EV zq x64 ops M ST =>
+    db_row_validates_standard_evex x86_vtables zq x64 row ops nif naf x86_sigs_wf
+      (forallb_In _ (row_present x86_vtables) x86_db_rows x86_db_rows_present row Hin) x86_standard_registers_ok x86_mem_base_types_ok
+      (forallb_In _ (decor_present x86_vtables) x86_db_decorations x86_db_decorations_present _ Hd) EV M ST).
+Qed.
+Print Assumptions C13_db_row_validates_standard_evex.
+
+(* non-vacuity: C13_db_row_validates_standard_masked_nonvacuous exhibits rows whose decoration entry names kEvex (and K) *)
+Example C13_db_row_validates_standard_evex_nonvacuous :
+  existsb (fun row => existsb (fun dc => (fst (fst dc) =? dr_inst row) && test (snd (fst dc)) IF_Evex) x86_db_decorations) x86_db_rows = true.
+Proof. vm_compute. reflexivity. Qed.
